@@ -28,7 +28,7 @@ for d in /verif/probes/*/; do
       cp $f $wt/$dst/; pkgs="$pkgs ./$dst/"
     done
     pkgs=$(echo $pkgs | tr ' ' '\n' | sort -u | tr '\n' ' ')
-    (cd $wt && timeout 900 go test -count=1 -vet=off -run 'Probe|C16|Neg|Hang|Tomb|IDTag|C06|Fuzz' $pkgs > /tmp/probe_$name.log 2>&1); r=$?
+    (cd $wt && timeout 900 go test -count=1 -vet=off -run 'Probe|Hunt|C16|Neg|Hang|Tomb|IDTag|C06|Fuzz' $pkgs > /tmp/probe_$name.log 2>&1); r=$?
     (cd $wt && git clean -fdq)
   fi
   echo "$name rc=$r"
